@@ -131,8 +131,8 @@ impl Findings {
         Findings { all }
     }
 
-    /// the open finding that lists this failure, if any.  A key pattern is a literal, or
-    /// `a|b|c` alternatives, or `prefix*`.
+    /// the open finding that lists this failure, if any.  A key pattern is `a|b|c`
+    /// alternatives, each a literal, `prefix*` or `~substring`.
     pub fn matching(&self, f: &Failure) -> Option<&Finding> {
         self.all.iter().find(|k| {
             k.status == "open"
@@ -140,7 +140,9 @@ impl Findings {
                 && k.keys.iter().all(|(key, pat)| {
                     f.keys.get(key).map_or(false, |val| {
                         pat.split('|').any(|p| {
-                            if let Some(pre) = p.strip_suffix('*') {
+                            if let Some(sub) = p.strip_prefix('~') {
+                                val.contains(sub)
+                            } else if let Some(pre) = p.strip_suffix('*') {
                                 val.starts_with(pre)
                             } else {
                                 p == val
@@ -155,6 +157,16 @@ impl Findings {
         self.all
             .iter()
             .any(|k| k.status == "open" && k.exclude.iter().any(|t| t == tag))
+    }
+
+    /// all exclusion tags of open findings that start with `prefix`, prefix removed
+    pub fn excluded_with_prefix(&self, prefix: &str) -> Vec<String> {
+        self.all
+            .iter()
+            .filter(|k| k.status == "open")
+            .flat_map(|k| k.exclude.iter())
+            .filter_map(|t| t.strip_prefix(prefix).map(String::from))
+            .collect()
     }
 }
 
@@ -358,10 +370,13 @@ pub fn run_check(prop: &dyn Property, tier: Tier, seed: u64) -> i32 {
     let total = Mutex::new(Stats::default());
     let violations: Mutex<Vec<Violation>> = Mutex::new(Vec::new());
     let lines: Mutex<Vec<String>> = Mutex::new(Vec::new());
+    // triage aid: XV_COLLECT=1 keeps searching after failures and tabulates their signatures
+    let collect_mode = std::env::var("XV_COLLECT").is_ok();
+    let collected: Mutex<BTreeMap<String, (u64, String)>> = Mutex::new(BTreeMap::new());
 
     std::thread::scope(|s| {
         for shard in 0..SHARDS {
-            let (findings, families, stop, harness_err, total, violations, lines) = (
+            let (findings, families, stop, harness_err, total, violations, lines, collected) = (
                 &findings,
                 &families,
                 &stop,
@@ -369,6 +384,7 @@ pub fn run_check(prop: &dyn Property, tier: Tier, seed: u64) -> i32 {
                 &total,
                 &violations,
                 &lines,
+                &collected,
             );
             s.spawn(move || {
                 let worker = match Worker::spawn() {
@@ -463,6 +479,11 @@ pub fn run_check(prop: &dyn Property, tier: Tier, seed: u64) -> i32 {
                                     if counting {
                                         *stats.borrow_mut().known_seen.entry(k.id.clone()).or_default() += 1;
                                     }
+                                } else if collect_mode {
+                                    let sig = format!("{} {:?}", f.kind, f.keys);
+                                    let mut c = collected.lock().unwrap();
+                                    let e = c.entry(sig).or_insert((0, f.message.clone()));
+                                    e.0 += 1;
                                 } else if bad.is_none() {
                                     bad = Some(f.kind.clone());
                                 }
@@ -511,6 +532,11 @@ pub fn run_check(prop: &dyn Property, tier: Tier, seed: u64) -> i32 {
 
     for l in lines.into_inner().unwrap() {
         println!("{l}");
+    }
+    if collect_mode {
+        for (sig, (n, msg)) in collected.into_inner().unwrap() {
+            println!("COLLECTED x{n} {sig}\n    {}", msg.replace('\n', "\n    "));
+        }
     }
     if let Some(e) = harness_err.into_inner().unwrap() {
         eprintln!("harness error: {e}");
